@@ -21,7 +21,7 @@ from .. import seams
 
 ID = 'C11'
 LEVEL = 'exploration'
-TIERS = {'quick': 1500, 'thorough': 60000}
+TIERS = {'quick': 4000, 'thorough': 60000}
 WALL_CAP = 180
 RULE = ('seeded histories of 8-40 parse/eval/list_names calls on ONE SqParser over valid, lexically invalid, '
         'syntactically invalid (unbalanced brackets both ways, premature end, reserved words, stray tokens, '
@@ -38,6 +38,7 @@ STUB = ['host callbacks', 'entropy source (re-seeded identically before each cal
 REACH_PROBES = ('kill_inside_yacc_parse', 'kill_inside_lexer', 'kill_inside_rules', 'kill_inside_eval', 'paren_count_nonzero_before_next_call',
                 'gen_abandoned_midway', 'budget_abort', 'reentry', 'fault_then_compared', 'foreign_names_switch',
                 'fresh_construction_crosscheck', 'bad_source_error')
+THOROUGH_PROBES = ('kill_sweep_case',)
 
 
 def _world(r):
@@ -97,7 +98,14 @@ def generate(seed, tier):
             op['kill_at'] = int(2 ** rf.uniform(0, 11))
         op['entropy'] = ro.randrange(2 ** 32)
         ops.append(op)
-    return {'world': world, 'ops': ops}
+    case = {'world': world, 'ops': ops}
+    if tier == 'thorough' and rc.random() < 0.04:
+        # kill-point enumeration on a short history
+        ops = [dict(o) for o in ops[:rc.randint(3, 7)]]
+        for o in ops:
+            o.pop('kill_at', None)
+        case = {'world': world, 'ops': ops, 'kill_sweep': rc.randrange(max(1, len(ops) - 1))}
+    return case
 
 
 class Universe:
@@ -181,6 +189,44 @@ def _call(U, op, names, kill=None):
 
 
 def execute(case, ctx):
+    if case.get('kill_sweep') is not None:
+        return _kill_sweep(case, ctx)
+    return _execute(case, ctx)
+
+
+def _kill_sweep(case, ctx):
+    """Thorough tier: the kill index of one call is ENUMERATED over all line events of that call (not sampled): for
+    every k the history is replayed from scratch with the kill at k, and every later call is compared in full."""
+    j = case['kill_sweep']
+    ops = case['ops']
+    # counting pass
+    A = Universe(case['world'], twin=False)
+    for op in ops[:j]:
+        try:
+            _call(A, op, A.spaces[op['space']] if op['op'] == 'eval' else None)
+        except SimKill:
+            pass
+    tk = TraceKill(boot.PKGDIR, None)
+    with tk:
+        try:
+            _call(A, ops[j], copy.deepcopy(A.spaces[ops[j]['space']]) if ops[j]['op'] == 'eval' else None)
+        except SimKill:
+            pass
+    total = tk.count
+    ks = list(range(1, total + 1)) if total <= 1500 else sorted(set(1 + (i * 7919) % total for i in range(1500)))
+    ctx.stats['kill_points_enumerated'] += len(ks)
+    ctx.probe('kill_sweep_case')
+    for k in ks:
+        sub = dict(case, ops=[dict(o) for o in ops])
+        sub.pop('kill_sweep')
+        for i, o in enumerate(sub['ops']):
+            o.pop('kill_at', None)
+        sub['ops'][j]['kill_at'] = k
+        _execute(sub, ctx, quiet=True)
+    ctx.nontrivial = True
+
+
+def _execute(case, ctx, quiet=False):
     A = Universe(case['world'], twin=False)
     B = Universe(case['world'], twin=True)
     fault_before = False
